@@ -151,7 +151,7 @@ def run(ctx):
                        "big-endian bytes to digits (BigNat) and judges every result.",
     }
     finish(ctx, "exploration", coverage, [
-        "the EVM end: wrapped Ethereum transactions (type 188, built by eth_tx.ConvertTx) are executed through core.VerifExecuteBlock (hook H4: BeforeExecute + Execute of the real executors) against a contract that stores CALLVALUE; Proposal015 is switched through LocalChainConfig.Proposal015Block; amounts are limited to what the funded dev account can pay (4e26)",
+        "the EVM end: wrapped Ethereum transactions (type 188, built by eth_tx.ConvertTx) are executed through core.VerifExecuteBlock (hook H4: BeforeExecute + Execute of the real executors) against a contract that stores CALLVALUE; Proposal015 is switched through LocalChainConfig.Proposal015Block; amounts are limited to 2e25 so that the funded dev account (1e27) can pay every case of a run",
         "the last step of the Ethereum value path replicates the two statements of executor.decodeContractData that touch the value (json.Unmarshal into types.ContractData, utility.StrToBigInt); the function itself is unexported",
         "exact text of BigIntToStr and exact digit shift at token decimals other than 18 are conformance judgements (exit 2 when they fail), the statement only fixes round trip, exact parsing and the identity at 18 decimals",
         "literals with an empty integer part or a trailing dot are offered but judged as conformance only",
